@@ -126,27 +126,6 @@ def gen_value(rng, dt):
     return rng.getrandbits(n)
 
 
-def props_with_stdlib_axioms(ctx):
-    """ctx.props(), repairing one parser slip of vlib.check_props locally: the header line "Axioms:" of a
-    Print Assumptions block is read as an axiom called "Axioms".  A theorem whose ONLY complaint is that pseudo
-    axiom has all its real assumptions inside vlib.ALLOWED_AXIOMS (here: functional_extensionality_dep of the Coq
-    standard library, used by the confluence theorem of coq/MPI/Sem.v) and counts as discharged.  Any other axiom
-    still breaks the theorem."""
-    r = ctx.props()
-    by_name = {}
-    for n, d in r["failed"]:
-        by_name.setdefault(n, []).append(d)
-    for n, ds in by_name.items():
-        if all(d == "depends on axiom Axioms" for d in ds):
-            real = [a for a in r["assumptions"].get(n, []) if a != "Axioms"]
-            if real and all(a in vlib.ALLOWED_AXIOMS for a in real):
-                ctx.broken[:] = [(bn, bd) for (bn, bd) in ctx.broken if not (bn == "theorem " + n and bd == "depends on axiom Axioms")]
-                ctx.cov["discharged"] += 1
-    ctx.notes["axioms_reported"] = [a for a in ctx.notes.get("axioms_reported", []) if a != "Axioms"]
-    ctx.log("proof obligations after accepting standard-library axioms: %d/%d discharged" % (ctx.cov["discharged"], ctx.cov["obligations"]))
-    return r
-
-
 def gen_cases(ctx):
     rng = ctx.rng
     cases = []
@@ -171,7 +150,7 @@ def run(ctx):
     for g, s in st.items():
         if s.startswith("FAILED"):
             ctx.tie_broken("translator group " + g, s)
-    props_with_stdlib_axioms(ctx)
+    ctx.props()
     v = ctx.variant(mpi="sim", san=True, cflags_extra=("-fno-sanitize=nonnull-attribute", "-fwrapv", "-fno-sanitize=signed-integer-overflow"))
     exe = ctx.cc([os.path.join(vlib.TOOLS, "harness", "c03_harness.c"), os.path.join(vlib.TOOLS, "simmpi", "simmpi.c")],
                  os.path.join(ctx.scratch, "c03_harness"), v)
